@@ -25,7 +25,7 @@ REQUIRES = [
     f"all(all(implies({_at('a', 'b')}.markClass is not None, not {_at('a', 'b')}.isMark) for b in range(len({AL}[{KEYS}[a]]))) for a in range(len({KEYS})))",
 ]
 LOCALS = {"result": List(MARK2BASE), "baseMarks": List(NA), "r0": List(MARK2BASE)}
-COMMON = dict(props=["C06"], params={"self": Ref("C06_Writer")}, returns=List(MARK2BASE), requires=REQUIRES)
+COMMON = dict(props=["C06"], params={"self": Ref("C06_Writer")}, returns=List(MARK2BASE), requires=REQUIRES, dict_key_positions=False)
 _RT = Runtime(c06rt.stage_cases, lambda d: {"self": c06rt.writer_at(d, "assigned")}, call=lambda fn, a: fn(a["self"]))
 _APPENDED = [
     "len(result) == len(r0) + 1 and result[len(r0)].name == glyphName and result[len(r0)].marks == baseMarks",
